@@ -1,7 +1,7 @@
 (* C16 — Discovery enumerates exactly the host addresses of each configured subnet.
    Only property statements; each closed by [exact] of a lemma proved elsewhere. *)
 From Coq Require Import NArith List.
-From LLRP Require Import Discover.Subnet Discover.SubnetProofs.
+From LLRP Require Import Discover.Subnet Discover.SubnetProofs Discover.Entries Discover.EntriesProofs.
 Import ListNotations.
 Open Scope N_scope.
 
@@ -92,6 +92,26 @@ Theorem C16_estimate_counts_registered : forall (reg : N -> bool) nets, Forall n
   (forall x, In x (probed reg nets) <-> In x (discover_all nets) /\ reg x = false).
 Proof. exact estimate_counts_registered. Qed.
 Print Assumptions C16_estimate_counts_registered.
+(* the configured list as autoDiscover reads it: IPv4 networks, genuine IPv6 networks (refused) and entries that are no CIDR.
+   Refused and malformed entries add nothing: the estimate is the number of addresses enumerated, and each address is
+   enumerated once per ACCEPTED subnet it is a host of *)
+Theorem C16_refused_entries_add_nothing : forall es, Forall entry_ok es ->
+  estimate_entries false es = N.of_nat (length (discover_entries es)).
+Proof. exact refused_entries_add_nothing. Qed.
+Print Assumptions C16_refused_entries_add_nothing.
+Theorem C16_entries_enumerate_accepted_only : forall es x, Forall entry_ok es ->
+  count_occ N.eq_dec (discover_entries es) x = length (filter (is_host x) (accepted es)).
+Proof. exact entries_enumerate_accepted_only. Qed.
+Print Assumptions C16_entries_enumerate_accepted_only.
+(* the code variant that adds an entry's size as soon as it parses, before the IPv6 refusal *)
+Theorem C16_estimate_before_refusal_refuted : exists es, Forall entry_ok es /\
+  estimate_entries true es <> N.of_nat (length (discover_entries es)).
+Proof. exact estimate_before_refusal_refuted. Qed.
+Print Assumptions C16_estimate_before_refusal_refuted.
+Example C16_entries_example :
+  estimate_entries false [EV6 64; EV4 2130706433 30; EBad; EV4 2130706689 31; EV6 128] = 3 /\
+  discover_entries [EV6 64; EV4 2130706433 30; EBad; EV4 2130706689 31; EV6 128] = [2130706433; 2130706434; 2130706688].
+Proof. exact entries_example. Qed.
 Example C16_example_two_nets :
   discover_all [(2130706433, 30); (2130706689, 31)] = [2130706433; 2130706434; 2130706688]
   /\ estimate [(2130706433, 30); (2130706689, 31)] = 3.
